@@ -4,6 +4,7 @@
 -/
 import GruleModel.Codec
 import GruleModel.Gen.ArithTables
+import GruleModel.Catalog
 open Lean Grule Grule.Codec
 
 def genTab : BinOp → OpTable
@@ -126,6 +127,15 @@ def callsJ (log : List Ev) : Json :=
   .arr (log.filterMap (fun e => match e with
     | .call _ f args => some (Json.arr (#[jstr f] ++ (args.map valJ).toArray))
     | _ => none)).toArray
+
+def hexVal (c : Char) : Nat :=
+  if c.toNat ≥ 48 && c.toNat ≤ 57 then c.toNat - 48 else if c.toNat ≥ 97 && c.toNat ≤ 102 then c.toNat - 87 else 0
+
+def hexBytes (s : String) : List UInt8 :=
+  let rec go : List Char → List UInt8
+    | a :: b :: rest => UInt8.ofNat (hexVal a * 16 + hexVal b) :: go rest
+    | _ => []
+  go s.toList
 
 partial def binopOperand (j : Json) : P Val := do
   let a ← arr j
@@ -266,6 +276,24 @@ def doOp (w : World) (op : Json) : P (World × Json) := do
       if !overwrite && (assocGet key w.kbs).isSome then pure (w, Json.mkObj [("ok", .bool false)])
       else pure ({ w with kbs := assocSet key kb w.kbs },
         Json.mkObj [("ok", .bool true), ("rules", rulesJ kb.entries), ("name", jstr kb.name), ("version", jstr kb.version)])
+  | "loadhex" =>
+    let bs := hexBytes (get "hex")
+    let bs ← match fieldOpt op "cut" with
+      | some c => do pure (bs.take (← nat c))
+      | none => pure bs
+    match Wire.loadBytes bs with
+    | .ok _ => pure (w, Json.mkObj [("ok", .bool true)])
+    | .error _ => pure (w, Json.mkObj [("ok", .bool false)])
+  | "wire" =>
+    let bs := hexBytes (get "hex")
+    match Wire.catalogDec bs with
+    | .error e => pure (w, Json.mkObj [("decoded", .bool false), ("err", jstr (reprStr e))])
+    | .ok (c, rest) =>
+      let again := Wire.catalogEnc c
+      let types := c.2.2.2.1.map (fun m => m.2.1)
+      pure (w, Json.mkObj [("decoded", .bool true), ("rest", (rest.length : Nat)), ("reencodeEqual", .bool (again == bs)),
+        ("metas", (c.2.2.2.1.length : Nat)), ("rules", ((types.filter (· == 7)).length : Nat)),
+        ("name", jstr (String.fromUTF8! (ByteArray.mk c.2.1.toArray)))])
   | "binop" =>
     let l ← binopOperand (← field op "l")
     let r ← binopOperand (← field op "r")
